@@ -302,10 +302,29 @@ def open_findings(pid):
     return {f['id']: f for f in load_findings() if pid in f['properties'] and f['status'] == 'open'}
 
 
+def jsonable(x):
+    """tuples and bytes survive a JSON round trip (see unjson)"""
+    if isinstance(x, tuple): return {'$t': [jsonable(y) for y in x]}
+    if isinstance(x, (bytes, bytearray)): return {'$b': bytes(x).hex()}
+    if isinstance(x, list): return [jsonable(y) for y in x]
+    if isinstance(x, dict): return {str(k): jsonable(v) for k, v in x.items()}
+    if isinstance(x, (str, int, float, bool)) or x is None: return x
+    return repr(x)
+
+
+def unjson(x):
+    if isinstance(x, dict):
+        if set(x) == {'$t'}: return tuple(unjson(y) for y in x['$t'])
+        if set(x) == {'$b'}: return bytes.fromhex(x['$b'])
+        return {k: unjson(v) for k, v in x.items()}
+    if isinstance(x, list): return [unjson(y) for y in x]
+    return x
+
+
 def write_replay(pid, failure):
     d = os.path.join(WORK, 'replays')
     os.makedirs(d, exist_ok=True)
-    blob = json.dumps({'property': pid, **failure}, sort_keys=True, default=repr, indent=1)
+    blob = json.dumps(jsonable({'property': pid, **failure}), sort_keys=True, indent=1)
     path = os.path.join(d, '%s-%s.json' % (pid, hashlib.blake2b(blob.encode(), digest_size=6).hexdigest()))
     with open(path, 'w') as f:
         f.write(blob)
@@ -326,7 +345,7 @@ def run_property(pid, tier, replay=None):
     tier = os.environ.get('VERIF_TIER', tier) if tier is None else tier
     mod = prop_module(pid)
     if replay:
-        data = json.load(open(replay))
+        data = unjson(json.load(open(replay)))
         return mod.replay(data)
 
     # 1. tie part (a): regenerate tables, rebuild and re-check every proof
@@ -447,7 +466,7 @@ def run_property(pid, tier, replay=None):
     }
     os.makedirs(os.path.join(VERIF, 'evidence'), exist_ok=True)
     with open(os.path.join(VERIF, 'evidence', '%s.json' % pid), 'w') as f:
-        json.dump(ev, f, indent=1, default=repr)
+        json.dump(jsonable(ev), f, indent=1)
     for l in lines:
         print(l)
     print('%s tier=%s seed=%d: %d theorems %s, %d cases (%d distinct non-trivial), %d corr failures, %d property failures, %.1fs'
